@@ -160,6 +160,7 @@ def handle_quic_packet(packet: Packet, keylog, quic_sessions: list[QuicSession],
     # addresses no session uses (connection migration): a short (e.g. one byte) id of an unrelated session would
     # otherwise match the first bytes of many foreign packets.
     for same_addresses in (True, False):
+        longest_match = None
         for session in quic_sessions:
             if session.matches_session_dgram(packet.ip_src, packet.ip_dst, packet.sport, packet.dport) != same_addresses:
                 continue
@@ -174,13 +175,22 @@ def handle_quic_packet(packet: Packet, keylog, quic_sessions: list[QuicSession],
                 # match by checking all known cid lengths for session
                 cid = session.match_short_header_cid(packet)
                 if cid is not None:
-                    session.handle_packet(packet, cid, quic_version)
-                    return
+                    if same_addresses:
+                        session.handle_packet(packet, cid, quic_version)
+                        return
+                    # a packet from other addresses (migration): a short id of one session may be the beginning of a
+                    # longer id of another session, the longest matching id decides
+                    if longest_match is None or len(cid) > len(longest_match[1]):
+                        longest_match = (session, cid)
 
             # matching ip address and port for zero length cids
             if same_addresses:
                 session.handle_packet(packet, dcid, quic_version)
                 return
+
+        if longest_match is not None:
+            longest_match[0].handle_packet(packet, longest_match[1], quic_version)
+            return
 
     if header_type != QuicHeaderType.SHORT:
         new_session = QuicSession(packet, server_ports, keylog, portmap, keep_original_ports)
